@@ -232,8 +232,16 @@ def freshVals (t : Table) : List Val := t.map fun x => x.2.default
 def setInts (t : Table) (vs : List Val) (kv : List (String × Int)) : List Val :=
   kv.foldl (fun acc x => setField t acc x.1 (.int x.2)) vs
 
-/-- `helper|<name>|args…`: the convenience setters applied to a fresh (or decoded) frame, then `pack()` -/
+/-- values of a fresh frame, or of one decoded from `init` -/
+def startVals (t : Table) (init : String) : Except Exc (List Val) :=
+  if init == "-" || init.isEmpty then .ok (freshVals t) else (t.decode (parseHex init)).map (·.1)
+
+/-- `helper|<name>|args…|<initial payload hex or ->`: the convenience setters applied to a fresh or decoded frame, then `pack()` -/
 def runHelper (f : List String) : String :=
+  let go (t : Table) (init : String) (k : List Val → String) : String :=
+    match startVals t init with
+    | .error e => "EXC:" ++ showExc e
+    | .ok vs => k vs
   match f with
   | ["rate", r, pl] =>
       match Gen.UbxCfgRate.decode (parseHex pl) with
@@ -244,35 +252,37 @@ def runHelper (f : List String) : String :=
         else
           let (m, n) := setRateInHz r.toNat
           encodeOr Gen.UbxCfgRate (setInts Gen.UbxCfgRate vs [("measRate", m), ("navRate", n)])
-  | ["save", m] =>
+  | "save" :: m :: rest =>
       let (c, s, l) := cfgSave m.toNat!
       let t := Gen.UbxCfgCfgAction
-      encodeOr t (setInts t (freshVals t) [("clearMask", c), ("saveMask", s), ("loadMask", l)])
-  | ["reset", m] =>
+      go t (rest.headD "-") fun vs => encodeOr t (setInts t vs [("clearMask", c), ("saveMask", s), ("loadMask", l)])
+  | "reset" :: m :: rest =>
       let (c, s, l) := cfgReset m.toNat!
       let t := Gen.UbxCfgCfgAction
-      encodeOr t (setInts t (freshVals t) [("clearMask", c), ("saveMask", s), ("loadMask", l)])
-  | ["rst", a] =>
+      go t (rest.headD "-") fun vs => encodeOr t (setInts t vs [("clearMask", c), ("saveMask", s), ("loadMask", l)])
+  | "rst" :: a :: rest =>
       let (mask, mode) := match a with
         | "warm_start" => rstWarmStart | "cold_start" => rstColdStart | "start" => rstStart | _ => rstStop
       let t := Gen.UbxCfgRstAction
-      encodeOr t (setInts t (freshVals t) [("navBbrMask", mask), ("resetMode", mode)])
-  | ["sos", a] =>
+      go t (rest.headD "-") fun vs => encodeOr t (setInts t vs [("navBbrMask", mask), ("resetMode", mode)])
+  | "sos" :: a :: rest =>
       let t := Gen.UbxUpdSosAction
-      encodeOr t (setInts t (freshVals t) [("cmd", if a == "backup" then sosBackup else sosClear)])
-  | ["esflaset", ty, x, y, z] =>
+      go t (rest.headD "-") fun vs => encodeOr t (setInts t vs [("cmd", if a == "backup" then sosBackup else sosClear)])
+  | "esflaset" :: ty :: x :: y :: z :: rest =>
       let t := Gen.UbxCfgEsflaSet
+      let init := rest.headD "-"
       match esflaSet (parseInt ty) (parseInt x) (parseInt y) (parseInt z) with
-      | none => "EXC:AssertionError"
+      | none => (match startVals t init with | .error e => "EXC:" ++ showExc e | .ok _ => "EXC:AssertionError")
       | some [v, n, _, lt, _, lx, ly, lz] =>
-          encodeOr t (setInts t (freshVals t) [("version", v), ("numConfigs", n), ("leverArmType", lt),
-            ("leverArmX", lx), ("leverArmY", ly), ("leverArmZ", lz)])
+          -- `__init__` sets version / numConfigs; `set()` itself the lever arm only
+          go t init fun vs => encodeOr t (setInts t vs ((if init == "-" || init.isEmpty then [("version", v), ("numConfigs", n)] else []) ++
+            [("leverArmType", lt), ("leverArmX", lx), ("leverArmY", ly), ("leverArmZ", lz)]))
       | some _ => "bad-model"
-  | ["utc", y, mo, d, h, mi, s] =>
+  | "utc" :: y :: mo :: d :: h :: mi :: s :: rest =>
       let t := Gen.UbxMgaIniTimeUtc
       match setDatetime y.toNat! mo.toNat! d.toNat! h.toNat! mi.toNat! s.toNat! with
       | [ty, ver, rf, leap, yy, mm, dd, hh, mn, ss, _, ns, tas, _, tan] =>
-          encodeOr t (setInts t (freshVals t) [("type", ty), ("version", ver), ("ref", rf), ("leapSecs", leap), ("year", yy),
+          go t (rest.headD "-") fun vs => encodeOr t (setInts t vs [("type", ty), ("version", ver), ("ref", rf), ("leapSecs", leap), ("year", yy),
             ("month", mm), ("day", dd), ("hour", hh), ("minute", mn), ("second", ss), ("ns", ns), ("tAccS", tas), ("tAccNs", tan)])
       | _ => "bad-model"
   | ["leverarm", ty, pl] =>
@@ -340,6 +350,26 @@ def runKeyStr (f : List String) : String :=
     | .ok t => t
     | .error e => "EXC:" ++ showExc e
   | _ => "bad"
+/-- `keyseq|<ops>`: ONE item object (starts as group 0, item 0, 8 bit, value 0): P pack, S str, U<hex> unpack into it,
+    G/I/B/V/Z assign group / item / bits / value / signed -/
+def runKeySeq (ops : String) : String :=
+  let (_, out) := (ops.splitOn ";").foldl (fun (acc : CfgItem × List String) op =>
+    let (c, out) := acc
+    let arg := String.ofList (op.toList.drop 1)
+    match op.toList.head? with
+    | some 'P' => (c, out ++ [match c.pack with | .ok bs => toHex bs | .error e => "EXC:" ++ showExc e])
+    | some 'S' => (c, out ++ [match c.text "data0" with | .ok t => "str:" ++ t.replace " " "_" | .error e => "EXC:" ++ showExc e])
+    | some 'U' =>
+        (match CfgItem.unpack (parseHex arg) with
+         | .ok (c', n) => (c', out ++ [s!"{showItem c'},n={n}"])
+         | .error e => (c, out ++ ["EXC:" ++ showExc e]))
+    | some 'G' => ({ c with group := parseInt arg }, out)
+    | some 'I' => ({ c with item := parseInt arg }, out)
+    | some 'B' => ({ c with bits := arg.toNat! }, out)
+    | some 'V' => ({ c with value := parseInt arg }, out)
+    | some 'Z' => ({ c with signed := arg == "1" }, out)
+    | _ => acc) (({ group := 0, item := 0, bits := 8, signed := false, value := 0 } : CfgItem), [])
+  " ".intercalate out
 def runKeyUnpack (h : String) : String :=
   match CfgItem.unpack (parseHex h) with
   | .ok (c, n) => s!"{showItem c} n={n}"
@@ -479,6 +509,20 @@ def runCkM (a b : String) : String :=
 def runCkGen (len seed mode : String) : String :=
   let c := Ck.zero.addAll (lcgPayload len.toNat! seed.toNat! mode.toNat!)
   s!"{c.value.1},{c.value.2} {c.reset.addAll [1, 2, 3] == Ck.zero.addAll [1, 2, 3]}"
+/-- `ckil|<ops>`: several checksum objects alive at once (N new, A<k>:<hex> add, R<k> reset, V<k> value) -/
+def runCkIl (ops : String) : String :=
+  let (_, out) := (ops.splitOn ";").foldl (fun (acc : List Ck × List String) op =>
+    let (objs, out) := acc
+    match op.toList with
+    | ['N'] => (objs ++ [Ck.zero], out)
+    | 'A' :: r =>
+        (match (String.ofList r).splitOn ":" with
+         | [k, h] => (objs.modify k.toNat! (fun c => c.addAll (parseHex h)), out)
+         | _ => acc)
+    | 'R' :: r => (objs.modify (String.ofList r).toNat! (fun c => c.reset), out)
+    | 'V' :: r => let c := objs.getD (String.ofList r).toNat! Ck.zero; (objs, out ++ [s!"{c.value.1},{c.value.2}"])
+    | _ => acc) ([], [])
+  " ".intercalate out
 def runCkSeq (h : String) : String :=
   let c := ((Ck.zero.add 0x55).reset).addAll (parseHex h)
   s!"{c.value.1},{c.value.2} {c.matches c.value.1 c.value.2}"
@@ -518,6 +562,7 @@ def handle (line : String) : String :=
   | "keypack" :: rest => runKeyPack rest
   | "keystr" :: rest => runKeyStr rest
   | ["keyunpack", h] => runKeyUnpack h
+  | ["keyseq", ops] => runKeySeq ops
   | ["fromkey", k, v] => runFromKey k v
   | ["valset", items] => runValset items
   | ["valgetpoll", keys] => runValgetPoll keys
@@ -536,6 +581,7 @@ def handle (line : String) : String :=
   | ["ckrow", a] => runCkRow a
   | ["ckm", a, b] => runCkM a b
   | ["ckseq", h] => runCkSeq h
+  | ["ckil", ops] => runCkIl ops
   | ["ckgen", l, sd, m] => runCkGen l sd m
   | ["scan", i, sc] => runScan i sc
   | ["scanseq", _, scans] => runScanSeq scans
